@@ -356,6 +356,103 @@ def st_fields(kind: str, variant: str):
     return st.fixed_dictionaries({n: _st_value(s) for n, s in SPEC[(kind, variant)]}).map(_strip_excl)
 
 
+# ---------------------------------------------------------------------------------------------- boundary values
+
+
+def _dedupe(vals):
+    out = []
+    for v in vals:
+        if v not in out:
+            out.append(v)
+    return out
+
+
+def boundary_values(spec) -> list:
+    """deterministic extreme values of one field: integers {0, 1, max-1, max, top bit only} (signed: min, min+1, -1, 0, 1,
+    max-1, max), both booleans, EVERY enum member, byte strings all-00 / all-FF / 0x80-only / last octet only (FF and 01) /
+    AA.. / 55.., bit strings all-zero / all-ones / alternating (both phases) / first bit only / last bit only."""
+    t = spec[0]
+    if t == "u":
+        n = spec[1]
+        hi = (1 << n) - 1
+        return _dedupe([0, 1, max(0, hi - 1), hi, 1 << (n - 1)])
+    if t == "s":
+        lo, hi = -(1 << (spec[1] - 1)), (1 << (spec[1] - 1)) - 1
+        return _dedupe([lo, lo + 1, -1, 0, 1, hi - 1, hi])
+    if t == "bool":
+        return [False, True]
+    if t == "enum":
+        return enum_names(spec[1])
+    if t == "choice":
+        return list(spec[1])
+    if t == "bytes":
+        n = spec[1]
+        return _dedupe(["00" * n, "ff" * n, "80" + "00" * (n - 1), "00" * (n - 1) + "ff", "00" * (n - 1) + "01", "aa" * n, "55" * n])
+    if t == "bits":
+        n = spec[1]
+        return _dedupe(["0" * n, "1" * n, ("10" * n)[:n], ("01" * n)[:n], "1" + "0" * (n - 1), "0" * (n - 1) + "1"])
+    if t == "excl":
+        return [spec[2]]
+    raise AssertionError(spec)
+
+
+def _extreme(spec, top: bool):
+    """all-fields-at-minimum / all-fields-at-maximum backgrounds"""
+    t = spec[0]
+    if t == "svc":
+        return {n: _extreme(sp, top) for n, sp in _svc_fields()}
+    vals = boundary_values(spec)
+    if t == "u":
+        return (1 << spec[1]) - 1 if top else 0
+    if t == "s":
+        return vals[-1] if top else vals[0]
+    if t in ("bytes", "bits"):
+        return vals[1] if top else vals[0]
+    return vals[-1] if top else vals[0]
+
+
+CHECK_MODES = ("zero", "ones", "computed")
+
+
+def has_settable_check(kind: str, variant: str) -> bool:
+    """PDUs whose constructor takes the check field: CSBK (crc), data header (crc), PI header (crc, only judged), confirmed
+    rate blocks (crc9).  Full LC is covered through crc_mode / crc_free."""
+    return kind in ("csbk", "header", "pi") or (kind in _RATE_LEN and variant.startswith("Confirmed"))
+
+
+def boundary_cases(kind: str, variant: str, backgrounds: List[dict]) -> List[Tuple[str, dict]]:
+    """(label, fields) list: every field of the variant set to each of its boundary values, one at a time, over each
+    background; plus the all-minimum and all-maximum field settings; plus the check-field modes 0 / all-ones / computed."""
+    spec = SPEC[(kind, variant)]
+    out: List[Tuple[str, dict]] = []
+    for top in (False, True):
+        out.append(("all_max" if top else "all_min", {n: _extreme(sp, top) for n, sp in spec}))
+    for bi, bg in enumerate(backgrounds):
+        for name, sp in spec:
+            if sp[0] == "svc":
+                for sn, ssp in _svc_fields():
+                    for v in boundary_values(ssp):
+                        f = dict(bg)
+                        f[name] = dict(bg[name])
+                        f[name][sn] = v
+                        out.append((f"svc.{ssp[0]}", f))
+                continue
+            for v in boundary_values(sp):
+                f = dict(bg)
+                f[name] = v
+                if name == "crc_free":
+                    f["crc_mode"] = "free"
+                out.append((sp[0], f))
+        if has_settable_check(kind, variant):
+            for mode in CHECK_MODES:
+                f = dict(bg)
+                f["_check"] = mode
+                out.append(("check_" + mode, f))
+    for _, f in out:
+        f.pop("_excluded", None)
+    return out
+
+
 # ---------------------------------------------------------------------------------------------- builders
 
 
@@ -397,18 +494,33 @@ def build(kind: str, variant: str, f: dict):
         elif s[0] == "svc":
             v = _svc(v)
         kw[name] = v
+    check = f.get("_check")  # None | "zero" (= library computes) | "ones" | "computed" (value the library computed, passed in)
     if kind == "csbk":
         from okdmr.dmrlib.etsi.layer2.pdu.csbk import CSBK
 
         kw["manufacturers_feature_set_id"] = kw.pop("fid")
-        return CSBK(csbko=member("CsbkOpcodes", variant), **kw)
+        op = member("CsbkOpcodes", variant)
+        if check == "ones":
+            return CSBK(csbko=op, crc=0xFFFF, **kw)
+        if check == "computed":
+            return CSBK(csbko=op, crc=CSBK(csbko=op, **kw).crc, **kw)
+        return CSBK(csbko=op, **kw)
     if kind == "header":
         from okdmr.dmrlib.etsi.layer2.pdu.data_header import DataHeader
 
-        return DataHeader(dpf=member("DataPacketFormats", variant), **kw)
+        dpf = member("DataPacketFormats", variant)
+        if check == "ones":
+            return DataHeader(dpf=dpf, crc=bitarray("1" * 16, endian="big"), **kw)
+        if check == "computed":
+            return DataHeader(dpf=dpf, crc=bitarray(DataHeader(dpf=dpf, **kw).crc), **kw)
+        return DataHeader(dpf=dpf, **kw)
     if kind == "pi":
         from okdmr.dmrlib.etsi.layer2.pdu.pi_header import PIHeader
 
+        if check == "ones":
+            return PIHeader(data=kw["data"], crc=0xFFFF)
+        if check == "computed":
+            return PIHeader(data=kw["data"], crc=PIHeader(data=kw["data"]).crc)
         return PIHeader(data=kw["data"])
     if kind.startswith("flc:"):
         from okdmr.dmrlib.etsi.fec.reed_solomon_12_9_4 import ReedSolomon1294
@@ -432,6 +544,10 @@ def build(kind: str, variant: str, f: dict):
         mod = importlib.import_module(f"okdmr.dmrlib.etsi.layer2.pdu.{kind}_data")
         cls = getattr(mod, {"rate12": "Rate12Data", "rate34": "Rate34Data", "rate1": "Rate1Data"}[kind])
         types = getattr(mod, {"rate12": "Rate12DataTypes", "rate34": "Rate34DataTypes", "rate1": "Rate1DataTypes"}[kind])
+        if check == "ones" and "dbsn" in kw:
+            return cls(packet_type=types[variant], crc9=0x1FF, **kw)
+        if check == "computed" and "dbsn" in kw:
+            return cls(packet_type=types[variant], crc9=cls(packet_type=types[variant], **kw).crc9, **kw)
         return cls(packet_type=types[variant], **kw)
     raise AssertionError(kind)
 
